@@ -59,9 +59,15 @@ func (e *Env) stateOf(x *Sx) *State {
 			return e.old
 		case "S'":
 			return e.cur
+		case "Si":
+			// the state at the start of the current loop iteration; the entry state outside loops
+			if e.cur != nil && e.cur.iterStart != nil {
+				return e.cur.iterStart
+			}
+			return e.old
 		}
 	}
-	e.errf("bad state designator %s (want S or S')", x)
+	e.errf("bad state designator %s (want S, S' or Si)", x)
 	return nil
 }
 
